@@ -61,8 +61,11 @@ Note(kind) == hist' = Append(hist, [kind |-> kind, settled |-> Settled])
 Break(f) == /\ edits < MaxEdits /\ f \notin broken
             /\ broken' = broken \cup {f} /\ edits' = edits + 1 /\ pending' = TRUE /\ Note(f)
             /\ UNCHANGED <<content, cwd, pc, dir, saved, snap, out>> /\ UNCHANGED cfgvars
+\* a repair is made where the fault is: a fault of the nested package is repaired by saving files of the nested package only (its
+\* manifest and a model file), so the watcher hears of it only if it still watches that directory; hist records what was repaired
 Repair == /\ edits < MaxEdits /\ broken # {}
-          /\ broken' = {} /\ content' = content + 1 /\ edits' = edits + 1 /\ pending' = TRUE /\ Note("repair")
+          /\ broken' = {} /\ content' = content + 1 /\ edits' = edits + 1 /\ pending' = TRUE
+          /\ hist' = Append(hist, [kind |-> "repair", settled |-> Settled, faults |-> broken])
           /\ UNCHANGED <<cwd, pc, dir, saved, snap, out>> /\ UNCHANGED cfgvars
 Save == /\ edits < MaxEdits /\ broken = {}
         /\ content' = content + 1 /\ edits' = edits + 1 /\ pending' = TRUE /\ Note("save")
